@@ -929,21 +929,65 @@ theorem insertQ_perm (e : Int × Nat) (q : List (Int × Nat)) : (insertQ e q).Pe
   | nil => rfl
   | cons r rs ih => simp [M.schedAll, ih]
 
-/-- Scheduling a list of routines adds exactly one entry per element, at the current
-    thread's logical time, and removes nothing. -/
-theorem schedAll_queue_perm (m : M) (l : List Nat) :
-    (m.schedAll l).queue.Perm (l.map (fun r => (m.secsOf m.cur, r)) ++ m.queue) := by
+/-- The entries of routine `r` in a queue. -/
+def entriesOf (r : Nat) (q : List (Int × Nat)) : List (Int × Nat) := q.filter fun x => x.2 == r
+
+theorem enqueue_perm (e : Int × Nat) (q : List (Int × Nat)) :
+    (enqueue e q).Perm (e :: q.filter fun x => x.2 != e.2) := insertQ_perm _ _
+
+/-- After `enqueue (t, r)`: routine `r` has exactly the entry `(t, r)`; every other routine
+    keeps exactly the entries it had. -/
+theorem entriesOf_enqueue_same (t : Int) (r : Nat) (q : List (Int × Nat)) :
+    entriesOf r (enqueue (t, r) q) = [(t, r)] := by
+  have h := (enqueue_perm (t, r) q).filter (fun x => x.2 == r)
+  have h2 : (((t, r) :: q.filter fun x => x.2 != r).filter fun x => x.2 == r) = [(t, r)] := by
+    simp only [List.filter_cons, beq_self_eq_true, if_true, List.filter_filter]
+    congr 1
+    apply List.filter_eq_nil_iff.mpr
+    intro x _; simp
+  rw [h2] at h
+  exact List.perm_singleton.mp h
+
+theorem entriesOf_enqueue_other (t : Int) (r r' : Nat) (hne : r' ≠ r) (q : List (Int × Nat)) :
+    (entriesOf r' (enqueue (t, r) q)).Perm (entriesOf r' q) := by
+  have h := (enqueue_perm (t, r) q).filter (fun x => x.2 == r')
+  refine h.trans ?_
+  have hr : ((t, r).2 == r') = false := by simpa using fun h => hne h.symm
+  simp only [List.filter_cons, hr, Bool.false_eq_true, if_false, List.filter_filter, entriesOf]
+  apply List.Perm.of_eq
+  apply List.filter_congr
+  intro x _
+  by_cases hx : x.2 = r'
+  · simp [hx, hne]
+  · simp [hx]
+
+theorem sched_secsOf_cur (m : M) (r : Nat) : (m.sched r).secsOf (m.sched r).cur = m.secsOf m.cur := by
+  simp only [sched_cur]; cases m.cur <;> rfl
+
+/-- Scheduling a list of routines at the current thread's logical time `t`: afterwards each of
+    them has exactly ONE pending entry, `(t, r)`, and nobody else's entries changed. -/
+theorem schedAll_entries (m : M) (l : List Nat) :
+    (∀ r ∈ l, entriesOf r (m.schedAll l).queue = [(m.secsOf m.cur, r)]) ∧
+    (∀ r, r ∉ l → (entriesOf r (m.schedAll l).queue).Perm (entriesOf r m.queue)) := by
   induction l generalizing m with
-  | nil => exact List.Perm.refl _
-  | cons r rs ih =>
-    simp only [M.schedAll, List.map_cons, List.cons_append]
-    have h1 := ih (m.sched r)
-    have hs : (m.sched r).secsOf (m.sched r).cur = m.secsOf m.cur := by
-      simp only [sched_cur]; cases m.cur <;> rfl
-    rw [hs] at h1
-    refine h1.trans ?_
-    have h2 : (m.sched r).queue.Perm ((m.secsOf m.cur, r) :: m.queue) := insertQ_perm _ _
-    exact (List.Perm.append_left _ h2).trans List.perm_middle
+  | nil => exact ⟨by simp, fun r _ => List.Perm.refl _⟩
+  | cons a rs ih =>
+    obtain ⟨ih1, ih2⟩ := ih (m.sched a)
+    rw [sched_secsOf_cur] at ih1
+    simp only [M.schedAll]
+    constructor
+    · intro r hr
+      by_cases hrs : r ∈ rs
+      · exact ih1 r hrs
+      · have hra : r = a := by simpa [hrs] using hr
+        subst hra
+        have := ih2 r hrs
+        have h3 : entriesOf r (m.sched r).queue = [(m.secsOf m.cur, r)] := entriesOf_enqueue_same _ _ _
+        rw [h3] at this
+        exact List.perm_singleton.mp this
+    · intro r hr
+      simp only [List.mem_cons, not_or] at hr
+      exact (ih2 r hr.2).trans (entriesOf_enqueue_other _ _ _ hr.1 _)
 
 theorem releaseCond_conds (m : M) (c i : Nat) :
     (m.releaseCond c).conds i = if i = c then { m.conds c with waiting := [] } else m.conds i := by
